@@ -632,11 +632,19 @@ func FieldOfField(f *ssa.Field) *types.Var {
 func AccessPath(v ssa.Value) string {
 	switch x := v.(type) {
 	case *ssa.Parameter:
-		return x.Name()
+		return ParamRefName(x) // the name on the reference tree: tables keep resolving when a parameter is renamed
 	case *ssa.FreeVar:
 		return x.Name()
 	case *ssa.Alloc:
 		if x.Comment != "" {
+			// the local a parameter was spilled to answers to the parameter's name
+			if f := x.Parent(); f != nil {
+				for _, p := range f.Params {
+					if p.Name() == x.Comment {
+						return ParamRefName(p)
+					}
+				}
+			}
 			return x.Comment
 		}
 		return x.Name()
